@@ -193,6 +193,8 @@ def default_config():
     for f in ("memset", "memcpy", "memcmp", "strlen", "memchr", "memmove", "strcmp", "strncmp", "abort",
               "malloc", "free", "calloc"):
         cfg.ext[f] = f
+    for f in ("memcpy", "memset", "memcmp", "memmove", "strlen"):
+        cfg.ext["__builtin_" + f] = cfg.ext.get(f, f)
     for f in ("isspace", "isdigit", "islower", "isupper", "isalpha", "isalnum", "toupper", "tolower"):
         cfg.ext[f] = "xc_" + f
     cfg.ext["min"] = _minmax("min")
@@ -204,6 +206,7 @@ def default_config():
     cfg.ext["equal"] = _std_equal
     cfg.ext["var:value"] = _trait_value
     cfg.ext["compare"] = "xc_traits_compare"
+    cfg.ext["lexicographical_compare"] = "xc_lex_compare_cc"
     cfg.ext["find"] = "xc_traits_find"
     cfg.ext["swap"] = _swap
     cfg.ext["delete"] = _delete
